@@ -31,6 +31,11 @@ def m_elapsed(P, c, args, dt):
     return Opaque('Duration', 0)
 
 
+@model('std::time::SystemTime::duration_since', 'std::time::SystemTime::elapsed')
+def m_systime_since(P, c, args, dt):
+    return ok(Opaque('Duration', 0))
+
+
 @pattern(r'std::time::Duration::(as_millis|as_secs|as_micros|as_nanos|as_secs_f64|subsec_millis)$')
 def m_duration_as(P, c, args, dt):
     d = tgt(args[0])
